@@ -454,6 +454,9 @@ func (fr *Frame) applyContract(ct *FuncContract, fn *ssa.Function, sig *types.Si
 			continue // speaks about a program point inside the callee: checked there, meaningless to the caller
 		}
 		g, err := penv.evalBool(c.Expr)
+		if err != nil && strings.Contains(err.Error(), "unknown identifier") {
+			continue // speaks about a local of the callee's body: checked there, not expressible at the call
+		}
 		if err != nil {
 			fx.unsupported = append(fx.unsupported, fmt.Sprintf("postcondition %q of %s: %v", c.Src, name, err))
 			continue
